@@ -558,10 +558,41 @@ fn check_series(start: f64, incs: &[f64], ys: &[f64], nan_mask: &[bool], ops: &[
     if n >= 2 {
         for level in levels {
             let level = *level;
-            // flat-at-level segments: solution set is an interval; excluded and counted
-            let flat = (0..n - 1).any(|i| m.ys[i] == level && m.ys[i + 1] == level && m.xs[i + 1] > m.xs[i]);
-            if flat {
-                cx.label("level_flat_excluded");
+            // flat-at-level segments: the solution set contains whole intervals, so no finite list can be
+            // "exactly" it; what is decided there is no panic, soundness of every reported value, every isolated
+            // solution reported, and at least one representative per flat interval
+            let flats: Vec<(f64, f64)> = (0..n - 1).filter(|&i| m.ys[i] == level && m.ys[i + 1] == level && m.xs[i + 1] > m.xs[i]).map(|i| (m.xs[i], m.xs[i + 1])).collect();
+            let vertical_any = (0..n - 1).any(|i| m.xs[i + 1] == m.xs[i] && ((m.ys[i] - level) * (m.ys[i + 1] - level) <= 0.0));
+            if !flats.is_empty() && !vertical_any {
+                cx.label("level_flat");
+                let got = match guarded(|| cur.y_crossings(level)) {
+                    Ok(g) => g,
+                    Err(msg) => return Verdict::fail("C17/y_crossings/panic_flat", format!("y_crossings({level:e}) panicked on a segment flat at the level: {msg}; knots x={:?} y={:?}", m.xs, m.ys)),
+                };
+                let xtol = |x: f64| 2e-10 + 64.0 * ulp(x.abs().max(m.xabs()));
+                let mut isolated: Vec<f64> = vec![];
+                for i in 0..n - 1 {
+                    let (x0, x1, y0, y1) = (m.xs[i], m.xs[i + 1], m.ys[i], m.ys[i + 1]);
+                    if (y0 - level) * (y1 - level) <= 0.0 && y0 != y1 {
+                        isolated.push(x0 + (level - y0) * (x1 - x0) / (y1 - y0));
+                    }
+                }
+                for g in &got {
+                    let in_flat = flats.iter().any(|(a, b)| *g >= a - xtol(*a) && *g <= b + xtol(*b));
+                    let is_iso = isolated.iter().any(|t| (g - t).abs() <= xtol(*t));
+                    ensure!(g.is_finite() && (in_flat || is_iso), "C17/y_crossings/spurious_flat", "reported crossing {g:e} of level {level:e} is not a solution; flats {:?} isolated {:?}; knots x={:?} y={:?}", flats, isolated, m.xs, m.ys);
+                }
+                for t in &isolated {
+                    ensure!(got.iter().any(|g| (g - t).abs() <= xtol(*t)), "C17/y_crossings/missed_flat", "crossing of level {level:e} at x={t:e} not reported; got {:?}; knots x={:?} y={:?}", got, m.xs, m.ys);
+                }
+                for (a, b) in &flats {
+                    ensure!(got.iter().any(|g| *g >= a - xtol(*a) && *g <= b + xtol(*b)), "C17/y_crossings/flat_unreported", "segment [{a:e},{b:e}] lies on level {level:e} but no abscissa of it is reported; got {:?}", got);
+                }
+                ensure!(got.windows(2).all(|w| w[0] < w[1]), "C17/y_crossings/order", "crossings not strictly ascending: {:?}", got);
+                continue;
+            }
+            if !flats.is_empty() {
+                cx.label("level_flat_vertical_excluded");
                 continue;
             }
             // vertical jump across the level at a repeated abscissa: the interpolant is not a function there; excluded
